@@ -125,6 +125,37 @@ func init() {
 			return fmt.Sprintf("%d;", info.ScalerType) + showTabs(out)
 		}))
 	}
+	// direct predicate on large tables (the bodies are too large to send through the line protocol):
+	// a table of n bytes written by header.Write is read back byte for byte by the library reader
+	ops["header.bigreadback"] = func(f Fields) string {
+		return canonPanic(guard(func() string {
+			n := f.Int("n")
+			big := make([]byte, n)
+			for i := range big {
+				big[i] = byte(i*7 + i>>11 + 3)
+			}
+			tabs := map[string][]byte{"glyf": big, "cmap": {1, 2, 3, 4, 5}, "zzzz": big[:n/3]}
+			var buf bytes.Buffer
+			if _, err := header.Write(&buf, uint32(f.Int("scaler")), tabs); err != nil {
+				return "write-error"
+			}
+			rd := bytes.NewReader(buf.Bytes())
+			info, err := header.Read(rd)
+			if err != nil {
+				return errKind(err)
+			}
+			for name, want := range tabs {
+				got, err := info.ReadTableBytes(rd, name)
+				if err != nil {
+					return "err:table:" + hx([]byte(name))
+				}
+				if !bytes.Equal(got, want) {
+					return fmt.Sprintf("differs:table=%s:read=%d:written=%d", hx([]byte(name)), len(got), len(want))
+				}
+			}
+			return "ok"
+		}))
+	}
 	ops["header.read"] = func(f Fields) string {
 		return canonPanic(guard(func() string {
 			data := f.Hex("file")
@@ -144,7 +175,23 @@ func init() {
 var knownTags = []string{"head", "hhea", "maxp", "OS/2", "hmtx", "LTSH", "VDMX", "hdmx", "cmap", "fpgm", "prep",
 	"cvt ", "loca", "glyf", "kern", "name", "post", "gasp", "DSIG", "CFF ", "GSUB", "GPOS", "GDEF"}
 
+// lastTag remembers the previous tag so that near-duplicates can be drawn: tags that differ from
+// an earlier one in a single position (the directory order depends on every byte of the tag)
+var lastTag string
+
 func randTag(r *Rng) string {
+	t := randTag1(r)
+	lastTag = t
+	return t
+}
+
+func randTag1(r *Rng) string {
+	if lastTag != "" && r.Chance(1, 4) {
+		b := []byte(lastTag)
+		i := Pick(r, []int{3, 3, 3, 2, 1, 0})
+		b[i] = byte(r.Range(0x20, 0x7e))
+		return string(b)
+	}
 	if r.Chance(1, 2) {
 		return Pick(r, knownTags)
 	}
@@ -157,6 +204,14 @@ func randTag(r *Rng) string {
 }
 
 func areaHeader(c *Ctx) {
+	// large tables around 2^24 bytes (one in quick, three in thorough)
+	bigs := []int{1<<24 + 5}
+	if c.Tier == "thorough" {
+		bigs = []int{1<<24 - 1, 1 << 24, 1<<24 + 5, 1<<25 + 1}
+	}
+	for _, n := range bigs {
+		c.Case(Direct, "header.bigreadback", fmt.Sprintf("scaler=65536 n=%d", n), true)
+	}
 	r := c.Rng
 	scalers := []uint32{header.ScalerTypeTrueType, header.ScalerTypeCFF, header.ScalerTypeApple}
 	counts := []int{1, 2, 3, 4, 5, 15, 16, 17, 31, 32, 33}
